@@ -64,6 +64,24 @@ ExprCons ==
        <<"addr", Addr(X)>>
     >>
 
+\* supported statements whose LAST item must not get lost: statement-expressions used as statements with one / several
+\* inner statements and an assignment, a store-free expression or a nested statement-expression as their last item; blocks
+\* and loops ending in such statements
+SE(body, e) == ExprS(StmtExpr(body, e))
+SuppCons ==
+    << <<"se-list-assign", SE(<< Upd(X, 4), Set(Rx, K(3)) >>, Assign(X, "=", Bin("+", X, K(1))))>>,
+       <<"se-one-assign", SE(<< Upd(X, 4) >>, Assign(X, "=", Bin("+", X, K(1))))>>,
+       <<"se-only-assign", SE(<< >>, Assign(X, "=", Bin("+", X, K(1))))>>,
+       <<"se-list-compound", SE(<< Upd(X, 4), Upd(X, 5) >>, Assign(X, "+=", A))>>,
+       <<"se-nested", SE(<< Upd(X, 4) >>, StmtExpr(<< Upd(X, 5) >>, Assign(X, "=", Bin("+", X, K(1)))))>>,
+       <<"se-list-value", Set(A, StmtExpr(<< Upd(X, 4), Upd(X, 5) >>, Bin("+", X, K(1))))>>,
+       <<"block-list", Block(<< Upd(X, 4), Set(Rx, K(3)), Upd(X, 5) >>)>>,
+       <<"if-noelse-list", If(Bin("&", A, K(1)), << Upd(X, 4), Upd(X, 5), Upd(X, 6) >>)>>,
+       <<"ifelse-list", IfElse(Bin("&", A, K(1)), << Upd(X, 4), Upd(X, 5) >>, << Upd(X, 6), Upd(X, 7), Upd(X, 8) >>)>>,
+       <<"for-list", Loop(<< Upd(X, 4), Upd(X, 5), Upd(X, 6) >>)>>,
+       <<"empty-then-stmt", Block(<< [k |-> "empty"], Upd(X, 4), [k |-> "empty"], Upd(X, 5) >>)>>
+    >>
+
 StmtPos(c, pos) ==
     CASE pos = "seq"    -> << Upd(X, 1), c, Upd(X, 2) >>
       [] pos = "first"  -> << c, Upd(X, 2) >>
@@ -92,9 +110,13 @@ ExprProgs == [i \in 1..(Len(ExprCons) * Len(ExprPositions)) |->
                 LET c == ExprCons[((i - 1) \div Len(ExprPositions)) + 1]
                     pos == ExprPositions[((i - 1) % Len(ExprPositions)) + 1]
                 IN  P("ue-" \o c[1] \o "-" \o pos, ExprPos(c[2], pos), <<"unsupported-expr", c[1], pos>>)]
+SuppProgs == [i \in 1..(Len(SuppCons) * Len(StmtPositions)) |->
+                LET c == SuppCons[((i - 1) \div Len(StmtPositions)) + 1]
+                    pos == StmtPositions[((i - 1) % Len(StmtPositions)) + 1]
+                IN  P("ss-" \o c[1] \o "-" \o pos, StmtPos(c[2], pos), <<"supported-stmt", c[1], pos>>)]
 Controls == << P("u0-control", << Upd(X, 1), Loop(<< Upd(X, 3) >>), Upd(X, 2) >>, <<"control">>) >>
 
-Programs == StmtProgs \o ExprProgs \o Controls
+Programs == StmtProgs \o ExprProgs \o SuppProgs \o Controls
 VARIABLE x
 Init == x = JsonSerialize(IOEnv.GEN_OUT, Programs)
 Next == FALSE /\ x' = x
